@@ -983,6 +983,79 @@ def translate_rbasex(tree, maxorder=8):
     return F, env, stencil
 
 
+
+# ---------------------------------------------------------------------------
+# basex.py: the reconstructed-image basis rho_k(r_i) (matrix Mc of _bs_basex)
+# ---------------------------------------------------------------------------
+def translate_basex_rho(tree):
+    """Mc[:, 0] = np.exp(-U2);  Mc[0, k] = 0;  Mc[1:, k] = np.exp(ek + np.log(U[1:]) * 2 * k2 - U2[1:])
+    with U = np.arange(float(n)) / sigma, U2 = U * U, k2 = k * k, ek = (1 - log(k2)) * k2
+    ->  basex_Mc0 (sigma i : R),  basex_Mck (k sigma i : R)  (i >= 1; Mc[0, k] = 0 is a constant)."""
+    fd = find_function(tree, '_bs_basex')
+    mathnames = set()
+    for n in tree.body:
+        if isinstance(n, ast.ImportFrom) and n.module == 'math':
+            mathnames |= {a.asname or a.name for a in n.names}
+    env = {'sigma': ('rv', 'sigma')}
+
+    class T(ScalarTr):
+        def tr(self, node):
+            # elementwise: U[1:], U2[1:] are the vectors themselves at index i >= 1
+            if isinstance(node, ast.Subscript) and isinstance(node.value, ast.Name) and node.value.id in ('U', 'U2') \
+                    and ast.unparse(node.slice) == '1:':
+                return self.env[node.value.id]
+            if isinstance(node, ast.Call) and isinstance(node.func, ast.Name) and node.func.id in ('log', 'exp') \
+                    and node.func.id in mathnames and len(node.args) == 1 and not node.keywords:
+                return ('fn', 'ln' if node.func.id == 'log' else 'exp', self.tr(node.args[0]))
+            return super().tr(node)
+
+    out = {}
+    seen = set()
+
+    def walk(stmts, inloop):
+        for st in stmts:
+            if isinstance(st, ast.Assign) and len(st.targets) == 1:
+                tg = ast.unparse(st.targets[0])
+                if tg == 'U':
+                    if ast.unparse(st.value) != 'np.arange(float(n)) / sigma':
+                        fail(st, 'U')
+                    env['U'] = ('div', ('rv', 'i'), ('rv', 'sigma'))
+                elif tg == 'U2':
+                    env['U2'] = T(env, {}).tr(st.value)
+                elif tg == 'Mc[:, 0]':
+                    out['basex_Mc0'] = (['sigma', 'i'], T(env, {}).tr(st.value))
+                elif tg == 'k2' and inloop:
+                    env['k2'] = T(env, {}).tr(st.value)
+                elif tg == 'ek' and inloop:
+                    env['ek'] = T(env, {}).tr(st.value)
+                elif tg == 'Mc[0, k]' and inloop:
+                    if const_value(st.value) != 0:
+                        fail(st, 'Mc[0, k] must be 0')
+                    seen.add('Mc0k')
+                elif tg == 'Mc[1:, k]' and inloop:
+                    out['basex_Mck'] = (['k', 'sigma', 'i'], T(env, {}).tr(st.value))
+                elif tg == 'Mc':
+                    if ast.unparse(st.value) != 'np.empty((n, nbf))':
+                        fail(st, 'Mc allocation')
+                elif tg.startswith('Mc'):
+                    fail(st, 'assignment to Mc')
+            elif isinstance(st, ast.For) and ast.unparse(st.target) == 'k' and ast.unparse(st.iter) == 'range(1, nbf)':
+                env['k'] = ('rv', 'k')
+                walk(st.body, True)
+            elif isinstance(st, (ast.For, ast.If, ast.While, ast.With, ast.Try)):
+                for sub in ast.walk(st):
+                    if isinstance(sub, (ast.Assign, ast.AugAssign)):
+                        t = sub.targets[0] if isinstance(sub, ast.Assign) else sub.target
+                        if ast.unparse(t).startswith('Mc') and not (isinstance(st, ast.For) and inloop is False and False):
+                            if not (isinstance(st, ast.For) and ast.unparse(st.target) == 'k'):
+                                fail(sub, 'assignment to Mc in an unsupported place')
+            elif isinstance(st, ast.AugAssign) and ast.unparse(st.target).startswith('Mc'):
+                fail(st, 'in-place change of Mc')
+    walk(strip_doc(fd.body), False)
+    if set(out) != {'basex_Mc0', 'basex_Mck'} or 'Mc0k' not in seen:
+        raise Unsupported('basex: Mc statements not found')
+    return out
+
 # ---------------------------------------------------------------------------
 # generation
 # ---------------------------------------------------------------------------
@@ -1020,7 +1093,7 @@ def build():
     defs = []
     info = {}
     src = {}
-    for mod in ('dasch', 'daun', 'rbasex'):
+    for mod in ('dasch', 'daun', 'rbasex', 'basex'):
         p = os.path.join(vlib.REPO, 'abel', mod + '.py')
         src[mod] = ast.parse(open(p).read(), p)
     # dasch
@@ -1076,11 +1149,14 @@ def build():
             defs.append(('rbasex_p%d' % k, 'Z', ['Rc', 'r'], ('call', 'rbasex_stencil', [c, u, lo])))
             pn.append(k)
     info['rbasex_p'] = pn
+    # basex rho_k
+    for name, (params, ir) in sorted(translate_basex_rho(src['basex']).items()):
+        defs.append((name, 'R', params, ir))
     return defs, info
 
 
 def render(defs, info):
-    out = [HEADER % 'abel/{dasch,daun,rbasex}.py', 'Create HintDb c09defs.\n']
+    out = [HEADER % 'abel/{dasch,daun,rbasex,basex}.py', 'Create HintDb c09defs.\n']
     for name, kind, params, ir in defs:
         ty = 'R' if kind == 'R' else 'Z'
         out.append('Definition %s (%s : %s) : R :=\n  %s.\n#[global] Hint Unfold %s : c09defs.\n'
